@@ -81,10 +81,12 @@ func scanFile(r io.Reader) (*machoMarkers, error) {
 		_, _ = io.ReadFull(r, ident[:])
 		endOfHeader += 4
 	}
-	dat := make([]byte, f.Cmdsz)
-	if _, err := io.ReadFull(r, dat); err != nil {
+	// the size comes from the header; let the buffer grow with what is really there
+	var cmdbuf bytes.Buffer
+	if _, err := io.CopyN(&cmdbuf, r, int64(f.Cmdsz)); err != nil {
 		return nil, err
 	}
+	dat := cmdbuf.Bytes()
 	endOfHeader += len(dat)
 	f.nextLc = int64(endOfHeader)
 	f.firstSh = 1<<63 - 1
